@@ -22,10 +22,26 @@ const ENGINE: &str = "modelsim";
 
 pub type Fail = (String, String);
 
+/// Where a worker notes which program it is running: if the process dies inside a run (a close
+/// that runs away between two polls on a changed tree ends as an allocation failure), the driver
+/// reads the name and starts the shard again without that program.
+static MARKER: std::sync::Mutex<Option<std::fs::File>> = std::sync::Mutex::new(None);
+
+fn mark_current_program(name: &str) {
+    use std::io::{Seek, SeekFrom, Write};
+    if let Ok(mut g) = MARKER.lock() {
+        if let Some(f) = g.as_mut() {
+            let _ = f.seek(SeekFrom::Start(0));
+            let _ = f.write_all(format!("{name:<40}\n").as_bytes());
+        }
+    }
+}
+
 /// Executes one explicit case. Ok(Ok(info)) held, Ok(Err(fail)) violated, Err = harness error.
 pub fn run_case(progs: &[Prog], case: &Json) -> Result<Result<hist_props::RunInfo, Fail>, String> {
     let prop = case.get("prop").and_then(|p| p.as_str()).ok_or("case lacks prop")?.to_string();
     let name = case.get("program").and_then(|p| p.as_str()).ok_or("case lacks program")?;
+    mark_current_program(name);
     let prog = progs.iter().find(|p| p.name == name).ok_or(format!("program {name} is not part of this corpus"))?;
     if let Some(src) = case.get("source").and_then(|s| s.as_str()) {
         if src != prog.source {
@@ -354,6 +370,7 @@ fn worker(args: &WorkerArgs, progs: &[Prog]) -> ShardStats {
                 let mut rng = Rng::new(seed);
                 let knobs = HistKnobs::draw(&mut rng);
                 let ops = if prog.model.is_some() { c17::gen_history(prog, &mut rng) } else { gen_history(prog, &mut rng, &knobs, true) };
+                mark_current_program(&prog.name);
                 let r = catch_unwind(AssertUnwindSafe(|| hist_props::transcript(prog, &ops)));
                 let h = match r {
                     Ok((h, info)) => {
@@ -402,6 +419,13 @@ pub fn main_with(entries: Vec<mdrv::Entry>) {
     };
     match parse_args() {
         Ok(Cmd::Run(args)) => {
+            // degraded mode after a worker death: the driver names the programs to leave out
+            let skip: Vec<String> = args.get_str("skip-programs", "").split(',').filter(|s| !s.is_empty()).map(|s| s.to_string()).collect();
+            let progs: Vec<Prog> = progs.into_iter().filter(|p| !skip.contains(&p.name)).collect();
+            let _ = std::fs::create_dir_all(&args.out);
+            if let Ok(f) = std::fs::File::create(format!("{}/shard-{}.current", args.out, args.shard)) {
+                *MARKER.lock().unwrap() = Some(f);
+            }
             let stats = worker(&args, &progs);
             if let Err(e) = stats.write(&args, ENGINE) {
                 eprintln!("cannot write results: {e}");
